@@ -59,12 +59,24 @@ def run(ctx):
         size = [max(s, (gi - 1) * cs + 1) for s, gi in zip(size, g)]
         rng_axes = [list(range(-1, gi + 2)) for gi in g]
         mins = [(x * cs, y * cs, z * cs) for x in rng_axes[0] for y in rng_axes[1] for z in rng_axes[2]]
-        if cs > 1:   # off-lattice
+        if cs > 1:   # off-lattice: on one, two or three axes at once
             for _ in range(6):
                 p = [rng.randrange(gi) * cs for gi in g]
                 d = rng.randrange(3)
                 p[d] += rng.randrange(1, cs)
                 mins.append(tuple(p))
+            if cs <= 4:
+                rems = [r for r in itertools.product(range(cs), repeat=3) if any(r)]
+            else:
+                rems = []
+                for _ in range(24):
+                    a, b = rng.randrange(1, cs), rng.randrange(cs)
+                    rems += [(a, cs - a, 0), (0, a, cs - a), (a, b, (-a - b) % cs), (a, a, a),
+                             (rng.randrange(cs), rng.randrange(1, cs), rng.randrange(cs))]
+                rems = [r for r in rems if any(r)]
+            base = [rng.randrange(gi) * cs for gi in g]
+            for r in rems:
+                mins.append(tuple(base[d] + r[d] for d in range(3)))
         items = cmc_items(sb.ShardVolumeSpec, size, cs, mins)
         cases.append({"kind": "cmc", "size": size, "cs": cs, "items": items, "pb": 0, "mb": 0, "sb": 0})
     # --- sampled large grids -------------------------------------------------
@@ -102,8 +114,36 @@ def run(ctx):
     for _ in range(ctx.pick(40, 400)):
         triples.append((rng.randint(0, 70), rng.randint(0, 40), rng.randint(0, 40)))
     vol = sb.ShardVolumeSpec([64, 64, 64], [128, 128, 128])
-    for (pb, mb, sbits) in triples:
-        spec = sb.ShardSpec(mb, sbits, preshift_bits=pb)
+    import json
+    import os
+    routed = []
+    for n, (pb, mb, sbits) in enumerate(triples):
+        routed.append(((pb, mb, sbits), "direct", lambda pb=pb, mb=mb, sbits=sbits:
+                       sb.ShardSpec(mb, sbits, preshift_bits=pb)))
+        # the specification as the accessors obtain it from a dataset's info file:
+        # the writer's path (get_volume_shard_spec) and the readers' (get_sharding_spec)
+        d = os.path.join(work, "ds%d" % n)
+        os.makedirs(d)
+        with open(os.path.join(d, "info"), "w") as f:
+            json.dump({"type": "image", "data_type": "uint8", "num_channels": 1, "scales": [{
+                "key": "k", "size": [128, 128, 128], "chunk_sizes": [[64, 64, 64]], "resolution": [1, 1, 1],
+                "voxel_offset": [0, 0, 0], "encoding": "raw",
+                "sharding": {"@type": "neuroglancer_uint64_sharded_v1", "preshift_bits": pb,
+                             "minishard_bits": mb, "shard_bits": sbits, "hash": "identity",
+                             "minishard_index_encoding": "raw", "data_encoding": "raw"}}]}, f)
+        routed.append(((pb, mb, sbits), "writer-info", lambda d=d:
+                       sfa.ShardedFileAccessor(d).get_volume_shard_spec("k")[1]))
+        routed.append(((pb, mb, sbits), "reader-info", lambda d=d:
+                       sb.ShardSpec(**sfa.ShardedFileAccessor(d).get_sharding_spec("k"))))
+    for (pb, mb, sbits), source, make in routed:
+        try:
+            spec = make()
+        except Exception as e:
+            if source == "direct":
+                raise
+            # the accessor refuses this triple when reading the info: not a routing fact
+            ctx.notes.setdefault("triples_refused_by_accessor", []).append([pb, mb, sbits, source, type(e).__name__])
+            continue
         with contextlib.redirect_stdout(io.StringIO()):
             scale = sfa.ShardedScale(work, "k", spec, vol)
         items = []
@@ -123,7 +163,8 @@ def run(ctx):
                 items.append({"id": bits(v), "shard": bits(int(sk)), "mini": bits(int(mk)), "name": name})
             except Exception as e:
                 items.append({"id": bits(v), "shard": [2], "mini": [2], "name": "exc:" + type(e).__name__})
-        cases.append({"kind": "route", "size": [1, 1, 1], "cs": 1, "pb": pb, "mb": mb, "sb": sbits, "items": items})
+        cases.append({"kind": "route", "size": [1, 1, 1], "cs": 1, "pb": pb, "mb": mb, "sb": sbits, "items": items,
+                      "source": source})
 
     verdicts = ctx.judge("Trace_Morton", cases, workers=8, chunk=400)
     for c in cases:
@@ -141,7 +182,7 @@ def run(ctx):
         else:
             for it in c["items"]:
                 if c["pb"] + c["mb"] + c["sb"] > 0:
-                    ctx.nontrivial(("route", c["pb"], c["mb"], c["sb"], tuple(it["id"])))
+                    ctx.nontrivial(("route", c.get("source"), c["pb"], c["mb"], c["sb"], tuple(it["id"])))
         st, clause, pos = verdicts[c["tid"]]
         if st != "ok":
             it = c["items"][pos - 1]
@@ -152,7 +193,7 @@ def run(ctx):
                        "beyond": any(p[d] > g[d] for d in range(3)), "negative": any(v < 0 for v in it["c"]),
                        "off_lattice": any(v % c["cs"] for v in it["c"]), "result": it["st"]}
             else:
-                sig = {"kind": "route", "pb": c["pb"], "mb": c["mb"], "sb": c["sb"],
+                sig = {"kind": "route", "source": c.get("source", "direct"), "pb": c["pb"], "mb": c["mb"], "sb": c["sb"],
                        "total_gt_64": c["pb"] + c["mb"] + c["sb"] > 64}
             ctx.violation(clause, sig, {"case": {k: v for k, v in c.items() if k != "items"}, "item": it})
     ctx.sample({"size": cases[0]["size"], "cs": cases[0]["cs"], "first_items": cases[0]["items"][:4]})
